@@ -602,6 +602,24 @@ def fresh_start(workdir, image, U, keep_lock=False):
                 s.finalize()
             except BaseException:
                 pass
+        # the recovered state must be stable: an invocation that changes nothing, followed by another
+        # start, loads the same snapshot again (a rejected uncommitted file must not come back)
+        try:
+            s2 = _BobState()
+        except BaseException as e:
+            return ("error:second-start:" + type(e).__name__ + ":" + str(getattr(e, "slogan", e))[:80], None, listing(workdir))
+        try:
+            try:
+                v2 = view(s2, U)
+            except BaseException as e:
+                return ("error:second-start-getters:" + type(e).__name__ + ":" + str(e)[:80], None, listing(workdir))
+        finally:
+            try:
+                s2.finalize()
+            except BaseException:
+                pass
+        if v2 != v:
+            return ("error:second-start-loads-different-state", None, listing(workdir))
         return ("ok", v, files_after_init)
     finally:
         signal.alarm(0)
